@@ -33,7 +33,8 @@ func init() {
 		switch kind {
 		case verifapi.RuleEval:
 			evMu.Lock()
-			if e := evs[subject]; e != nil && b >= 0 && b <= 5 {
+			// markers (and id-less rules) carry id 0 and are not rules of the configuration: not recorded
+			if e := evs[subject]; e != nil && b >= 0 && b <= 5 && a != 0 {
 				e.evaluated[b] = append(e.evaluated[b], a)
 			}
 			evMu.Unlock()
